@@ -114,7 +114,7 @@ func (b DBody) dbodyS(legacy map[string]bool) S {
 // ---- the part of a schema the JSON decoder looks at
 func jschemaS(b *schema.BodySchema) (S, bool) {
 	if b == nil {
-		return L(Atom("sch"), L(), Bool(false), L()), true
+		return L(Atom("sch"), L(), Bool(false), L(), Bool(false)), true
 	}
 	names := List{}
 	for _, n := range sortedKeys(b.Attributes) {
@@ -173,7 +173,7 @@ func jschemaS(b *schema.BodySchema) (S, bool) {
 		}
 		blocks = append(blocks, L(Str(t), Int(len(k.Labels)), body, deps))
 	}
-	return L(Atom("sch"), names, Bool(b.AnyAttribute != nil), blocks), true
+	return L(Atom("sch"), names, Bool(b.AnyAttribute != nil), blocks, Bool(b.Extensions != nil && b.Extensions.DynamicBlocks)), true
 }
 
 // ---- what the implementation decodes
